@@ -112,7 +112,7 @@ CLAIMS.update({
         technique="dimensional analysis by structural abstract interpretation (homogeneity degrees as linear forms in the number of factors, per-position list tracking, affine loop acceleration, path splitting at flag-dependent branches) + sign-parity and zero-sign lints",
         text="PARTIAL claim; decides necessary conditions only. (DEGREE-CONSERVED) the object returned by cp_normalize, tucker_normalize, parafac2_normalise and cp_flip_sign represents a tensor with the same homogeneity degree in the weights/core, in every factor and in the projections as its input, and cp_mode_dot / tucker_mode_dot (matrix branch and contracted-vector branch) add exactly degree 1 in the operand -- for weights present and absent, on every return path and any number of factors; (SCALE-FREE) every factor returned by a normaliser has degree 0 in all inputs, the scale being carried by the weights/core alone; (SIGN-PARITY) in cp_flip_sign every sign vector enters the represented tensor an even number of times; (SIGN-NONZERO) a sign vector that multiplies a factor cannot vanish where the component does not. It does NOT decide that the represented tensors are equal (wrong index / column order conserve degree), the unit norm itself, cp_permute_factors' alignment, TT/TR rank padding, CP->PARAFAC2 conversion or the SVD compress/decompress round trip.",
         note="Trusted: degree specification of dot / mode_dot / norm / reshape; where(x == 0, 1, x) is evaluated as x (generic case); cp_mode_dot / tucker_mode_dot analysed with copy=True. Found and repaired: cp_flip_sign annihilated components with a zero-mean column (fix commit in /repo, known_findings.json).",
-        design="DESIGN.md §17 (C04)",
+        design="DESIGN.md §17",
     ),
 })
 
@@ -121,7 +121,7 @@ CLAIMS.update({
         technique="dimensional analysis of the block updates by structural abstract interpretation of the whole driver (data tensor and initialiser output as symbols; first store per store site observed) + guard-dominance lint for line-search acceptance",
         text="PARTIAL claim; decides two necessary conditions, not descent itself. (UPDATE-DEGREE) the value each least-squares block update stores into the model -- CP-ALS, HALS non-negative CP (HALS and unconstrained branch), TR-ALS (lstsq and normal equations), the CP and Tucker regressors' ALS (ridge 0), CMTF's matrix-side factor, HOOI -- has the homogeneity degree of the exact block minimiser (+1 in the data, -1 in every other block and in the weights): with any other degree, rescaling the other blocks makes the residual after the update exceed the residual before it, so the sweep increases the objective for some input. Catches weights/factors missing from or doubled in the Gram matrix or the right-hand side, Gram products over the wrong set of modes, a sub-chain one core short. (ACCEPT-GUARDED) a line-search extrapolation replaces the iterate (CP-ALS) or is returned (PARAFAC2) only in the true branch of `error(extrapolated) < recorded error`. NOT decided: monotone descent, PARAFAC2's projection step, CMTF's coupled factor, the HALS inner solver's arithmetic (see C13), conditioning.",
         note="Trusted: degree specification of solve/lstsq (b - A), of the NNLS solvers (UtM - UtU), of svd (scale-free vectors) and of the tenalg primitives (C02); drivers analysed with ridge 0, no mask, no sparsity.",
-        design="DESIGN.md §18 (C07)",
+        design="DESIGN.md §17",
     ),
 })
 
@@ -130,7 +130,7 @@ CLAIMS.update({
         technique="dimensional (unit) analysis of the solver bodies by structural abstract interpretation: UtM, UtU, the l1 and ridge coefficients as units; every sum / difference / element store type-checked, every return compared with the unit of the exact solution",
         text="PARTIAL claim; decides unit consistency only. (UNIT-CONSISTENT) in hals_nnls (cold and warm start, with and without l1 / ridge coefficients), fista (cold / warm, penalised), active_set_nnls (cold / warm) and admm (unconstrained branch and constrained iteration) no sum, difference or element store combines quantities of different units, and every returned solution has the unit UtM / UtU of the exact (penalised) least-squares solution. The solution of the NNLS problem is homogeneous of degree +1 in UtM and -1 in UtU; an update that mixes units is not invariant under rescaling the design, so its fixed point cannot be the KKT point for every input. Catches a Gram entry missing from the coordinate update, squared denominators, coefficients added on the wrong side, a step without / with a non-inverted Lipschitz constant, residuals without the Gram matrix. NOT decided: KKT optimality of the numbers, convergence, active-set bookkeeping.",
         note="Trusted: clamp at epsilon evaluated as identity; proximal_operator unit-preserving; solve / svd degree specification.",
-        design="DESIGN.md §19 (C13)",
+        design="DESIGN.md §17",
     ),
 })
 
@@ -139,13 +139,13 @@ CLAIMS.update({
         technique="dimensional (unit) analysis of the operator bodies by structural abstract interpretation: tensor and unit-carrying parameter as one unit, coefficients and counts as numbers",
         text="PARTIAL claim; decides joint positive homogeneity only. (PROX-HOMOGENEOUS) in soft / singular-value thresholding, the l2 and squared-l2 prox, smoothness, simplex and l1-ball projection, hard and normalised sparsity, monotone (both directions) and unimodal regression and Procrustes, no sum, difference or element store combines quantities of different units and the result has the unit of the input (no unit for the normalising operators). Every penalty offered is positively homogeneous or a squared norm with a dimensionless coefficient, so the exact prox satisfies prox(c v; c r) = c prox(v; r); an operator that is not jointly homogeneous cannot be the exact minimiser for every input and parameter. NOT decided: feasibility, optimality, idempotence, non-expansiveness, behaviour on negative inputs or inside the constraint set.",
         note="Trusted: unit table of the parameters (thresholds and radii carry the data's unit; l2-square and smoothness coefficients dimensionless; sparsity levels are counts), confirmed against the documented prox problems; guards x + 1e-12 / x + eps are negligible by intent.",
-        design="DESIGN.md §20 (C12)",
+        design="DESIGN.md §17",
     ),
     "C20": dict(
         technique="dimensional analysis of the metric bodies by structural abstract interpretation: the two factor sets / data arrays as independent units",
         text="PARTIAL claim; decides the scale behaviour only. (SCALE-BEHAVIOUR) congruence_coefficient (with and without absolute values), correlation_index (all four methods), R2_score, correlation, reflective_correlation_coefficient and leverage_score_dist are homogeneous of degree 0 in each argument -- a necessary condition of their invariance under rescaling of either factor set; MSE / variance have degree 2, covariance degree (1, 1), RMSE / standard deviation degree 1, as their definitions require; no sum or difference inside them combines different units. NOT decided: optimality of the matching over all permutations, the [0, 1] range, permutation invariance, the exact definitions.",
         note="Trusted: one scale per factor matrix stands for per-column scales (the metrics normalise with axis=0 norms); svd degree specification for the leverage scores.",
-        design="DESIGN.md §21 (C20)",
+        design="DESIGN.md §17",
     ),
 })
 
@@ -154,13 +154,13 @@ CLAIMS.update({
         technique="dimensional analysis of the SVD methods by structural abstract interpretation (backend svd / eigh / qr by specification) + sign-pairing lint of svd_flip + dispatch-table agreement",
         text="PARTIAL claim; decides three structural clauses. (SVD-SCALING) truncated_svd, symeig_svd, randomized_svd and svd_interface with each method (with, without and with V-based sign resolution) return singular vectors of degree 0 and singular values of degree 1 in the matrix and add no quantities of different degree on the way -- the SVD of c*A is (U, c*S, V), so this is necessary for orthonormal vectors and true singular values (catches a missing square root in the Gram route, un-normalised or doubly normalised vectors, a range finder that is not orthonormalised when the power iterations are switched off, vectors multiplied by the spectrum); (FLIP-PAIRED) in each branch of svd_flip the sign vector multiplies both U and V exactly once, so sign resolution cannot change the product; (DISPATCH-AGREE) the branch method == '<name>' selects the function of that name and SVD_FUNS lists exactly the dispatched names. NOT decided: the values of the triplets, orthonormality itself, ordering, optimal truncation error, the randomized method's accuracy, shapes beyond min(shape), the non-negative option.",
         note="Trusted: degree specification of backend svd / eigh / qr.",
-        design="DESIGN.md §22 (C05)",
+        design="DESIGN.md §17",
     ),
     "C09": dict(
         technique="dimensional analysis of the decomposition drivers by structural abstract interpretation (symbolic number of modes, per-position core tracking) + rank-clipping lint over the sequential SVD calls",
         text="PARTIAL claim; decides two necessary conditions. (OUTPUT-DEGREE) the tensor represented by the output of TT-SVD, TR-SVD (starting mode 0) and HOOI is homogeneous of degree 1 in the input tensor (decompose c*X: the reconstruction must be c*X), all TT / TR cores but the last and all Tucker factors have degree 0 (orthonormal blocks carry no scale) and the last core / the Tucker core degree 1 -- also when the HOOI loop does not run; (RANK-CLIPPED) every sequential SVD of tensor_train / tensor_ring requests min(rows, columns, requested rank) components and stores that number back into the rank vector, and TR's first SVD is guarded by a rejecting test against min(rows, columns). NOT decided: exactness at sufficient rank, the quasi-optimality bounds, the lower bound by the largest discarded tail.",
         note="Trusted: svd_interface by specification (decided for its own code under C05); initialize_tucker by specification (HOSVD); tensor_ring analysed for mode=0; tensor_train_matrix delegates to tensor_train.",
-        design="DESIGN.md §23 (C09)",
+        design="DESIGN.md §17",
     ),
 })
 
